@@ -23,7 +23,7 @@ import os, sqlite3, json, itertools
 
 from pony.orm import Database, Required, Optional, Set, PrimaryKey, db_session, commit, rollback, flush
 from pony.orm import core
-from tracing import Tracer
+from tracing import Tracer, Fault
 import ponyutil
 
 
@@ -54,19 +54,24 @@ class Env(object):
         self.G, self.I, self.T = G, I, T
         @db.on_connect(provider='sqlite')
         def fast(db, connection): connection.execute('pragma synchronous = off')     # Pony's own hook for connection set-up; speed only
-        db.bind('sqlite', path, create_db=True, **self.tr.bind_kwargs())
+        db.bind('sqlite', path, create_db=True, **self.tr.bind_kwargs(timeout=0.05))     # short busy timeout: the 'database is locked' ending
         db.generate_mapping(create_tables=True)
         self.entities = [G, I, T]
         self.attrs = []             # all attributes, model id = position
         for e in self.entities:
             for a in e._attrs_: self.attrs.append(a)
         self.aid = {a: i for i, a in enumerate(self.attrs)}
-        self.raw = sqlite3.connect(path, isolation_level=None)
+        self.raw = sqlite3.connect(path, isolation_level=None, timeout=0.05)
         self.raw.execute('pragma synchronous = off')
         self.tables = [r[0] for r in self.raw.execute("select name from sqlite_master where type='table' and name not like 'sqlite_%' order by name")]
 
     def reset(self):
         db = self.db
+        self.tr.clear_faults()
+        if core.local.db2cache:      # a session that was not closed (only a broken Pony leaves one): harness clean-up
+            try: core.rollback()
+            except Exception: pass
+            core.local.db2cache.clear()
         db.disconnect()      # drop the pooled connection: the next session opens a new one (keeps runs independent)
         raw = self.raw
         raw.execute('begin')
@@ -86,7 +91,11 @@ class Env(object):
         return tuple(g if c.lower().startswith('g') else t for c in cols)
 
     def dump(self):
-        return {t: self.raw.execute('select * from "%s" order by 1, 2' % t).fetchall() for t in self.tables}
+        try:
+            return {t: self.raw.execute('select * from "%s" order by 1, 2' % t).fetchall() for t in self.tables}
+        except sqlite3.OperationalError as e:
+            # only a Pony that leaves the failed session's transaction open makes the file unreadable (connection release is property C19)
+            return {'unreadable': str(e)}
 
     def attr_json(self, a):
         rev = a.reverse
@@ -145,7 +154,11 @@ SCRIPTS = [('loaded_min', s_loaded_min), ('seed', s_seed), ('partial', s_partial
            ('modified', s_modified), ('rel_modified', s_rel_modified), ('created', s_created), ('created_graph', s_created_graph),
            ('delete', s_delete), ('delete_cascade', s_delete_cascade), ('cancelled', s_cancelled), ('cancelled_conn', s_cancelled_conn),
            ('failed_flush', s_failed_flush)]
-ENDINGS = ['commit', 'rollback', 'error']
+# how the session ends:  commit (normal exit) / rollback() / exception in the body /
+#   commit_fault: the COMMIT at the exit raises (fault injected into the recording connection) -> SessionCache.commit's except path
+#   commit_locked: the COMMIT at the exit really fails with 'database is locked' (another connection holds a read transaction)
+# and, for the script `failed_flush`, `exit`: the flush inside the exit's commit() fails (instead of an explicit flush() in the body)
+ENDINGS = ['commit', 'rollback', 'error', 'commit_fault', 'commit_locked']
 
 
 # ---------------------------------------------------------------------------------------------------------------------
@@ -220,23 +233,35 @@ def run_session(E, script, ending, strict):
     E.reset()
     R = Run(E); R.strict = strict
     outcome = 'ok'
+    reader = None
     try:
         with db_session(strict=strict):
             R.cache = E.db._get_cache()
             name, fn = script
             fn(E)
-            if name != 'failed_flush' and ending == 'commit': commit()
+            if name != 'failed_flush':
+                if ending == 'commit': commit()
+                elif ending in ('commit_fault', 'commit_locked'): flush()     # statuses are final; only the COMMIT itself is left for the exit
             R.collect()
             R.live = R.snapshot()
             R.had_connection = R.cache.connection is not None
+            R.wrote = bool(R.cache.in_transaction)
             if name == 'failed_flush':
                 R.close_tie = False; R.had_connection = True
-                flush()
+                if ending != 'exit': flush()
             if ending == 'rollback': rollback()
             elif ending == 'error': raise BodyError('body')
+            elif ending == 'commit_fault': E.tr.set_faults([Fault(call='commit', nth=0)])
+            elif ending == 'commit_locked':
+                reader = sqlite3.connect(E.path, isolation_level=None)
+                reader.execute('begin'); reader.execute('select count(*) from "G"').fetchall()       # holds a SHARED lock on the file
     except BodyError: outcome = 'BodyError'
-    except core.TransactionIntegrityError:
-        outcome = 'TransactionIntegrityError'
+    except core.TransactionIntegrityError: outcome = 'TransactionIntegrityError'
+    except core.CommitException: outcome = 'CommitException'
+    finally:
+        E.tr.clear_faults()
+        if reader is not None:
+            reader.rollback(); reader.close()
     return R, outcome
 
 
@@ -453,17 +478,28 @@ def explore(ctx, E, scripts, stricts, ambients, target_limit=None):
     pending = []
     for script in scripts:
         for ending in ENDINGS:
-            if script[0] == 'failed_flush' and ending != 'error': continue
+            if script[0] == 'failed_flush' and ending not in ('error', 'commit'): continue
+            if script[0] == 'failed_flush' and ending == 'commit': ending = 'exit'
             for strict in stricts:
                 for ambient in ambients:
                     R, how = run_session(E, script, ending, strict)
                     case = {'script': script[0], 'ending': ending, 'strict': strict}
+                    if ending in ('commit_fault', 'commit_locked') and how != 'CommitException':
+                        # nothing was written: no COMMIT is sent at the exit, nothing can fail — the run equals the `commit` ending
+                        ctx.count('ending-kind:%s:no-COMMIT-sent (same as commit, not repeated)' % ending); continue
                     det = canon_world(R.snapshot())
                     if R.close_tie and not ambient:
-                        pending.append(({'op': 'close', 'world': canon_world(R.live), 'strict': strict, 'hadConnection': R.had_connection},
+                        how_model = {'commit': 'commit', 'rollback': 'rollback', 'error': 'error', 'exit': 'flushFailed',
+                                     'commit_fault': 'commitFailed', 'commit_locked': 'commitFailed'}[ending]
+                        pending.append(({'op': 'close', 'world': canon_world(R.live), 'strict': strict, 'hadConnection': R.had_connection,
+                                         'how': how_model, 'inTransaction': bool(getattr(R, 'wrote', True))},
                                         None, det, dict(case, tie='close', how=how), None))
                         ctx.count('close:%s' % ('no-connection' if not R.had_connection else ('strict' if strict else 'non-strict')))
                     ctx.count('ending:%s' % how)
+                    ctx.count('ending-kind:%s%s' % (ending, ':commit-really-failed' if how == 'CommitException' else ''))
+                    if det['alive']:
+                        ctx.violation('the session cache is still alive after its db_session ended', dict(case, how=how), observed='cache.is_alive is True',
+                                      expected='is_alive False', key='alive-after-end:%s' % ending)
                     live_vals = R.live
                     targets = list(range(len(R.objs)))
                     if target_limit: targets = targets[:target_limit]
